@@ -19,6 +19,9 @@ from common import Check, coq_eval, impl_run, impl_run_parallel
 import gen
 
 CLASSES = ["EPIPE", "ECONNRESET", "TIMEOUT"]
+# fault patterns per write index k: None = every write from k on fails (connection gone);
+# n = writes k .. k+n-1 fail and the connection then works again (transient)
+SPANS = {"quick": [None, 1, 2], "thorough": [None, 1, 2, 3, 5]}
 OWN = {"EPIPE": "BrokenPipeError", "ECONNRESET": "ConnectionResetError", "TIMEOUT": "TimeoutError"}
 LOGCLS = {"BrokenPipeError": "(LIO EPIPE)", "ConnectionResetError": "(LIO ECONNRESET)", "TimeoutError": "(LIO TIMEOUT)",
           "timeout": "(LIO TIMEOUT)", "IndexError": "LIndexError", "AttributeError": "LAttributeError",
@@ -125,8 +128,9 @@ def coq_case(rq, entry, case):
     acts = "[" + "; ".join(ACT[ch] for ch in entry["events"] if ch in ACT) + "]"
     recs = "[" + "; ".join("(%s, %s)" % (LOGCLS.get(c, "LOther"), "true" if a else "false")
                            for c, a, _ in (case["records"] or [])) + "]"
-    return "(((%s, %s), (%s, (%d%%nat, %s))), (%s, (%s, %d%%nat)))" % (
-        PCLASS[rq["proto"]], "true" if rq["outside"] else "false", acts, case["k"], case["cls"],
+    span = "None" if case.get("span") is None else "(Some %d%%nat)" % case["span"]
+    return "(((%s, %s), (%s, ((%d%%nat, %s), %s))), (%s, (%s, %d%%nat)))" % (
+        PCLASS[rq["proto"]], "true" if rq["outside"] else "false", acts, case["k"], span, case["cls"],
         "true" if case["exc"] else "false", recs, len(case["fd_gc"]))
 
 
@@ -168,7 +172,8 @@ def run(tier):
     groups = {}
     for rq in reqs:
         groups.setdefault(rq["proto"], []).append(rq)
-    jobs = [{"op": "c20_sweep", "tree": tree(tier), "config": CONFIG, "requests": g, "classes": CLASSES, "every_index": True}
+    jobs = [{"op": "c20_sweep", "tree": tree(tier), "config": CONFIG, "requests": g, "classes": CLASSES, "every_index": True,
+             "spans": SPANS[tier]}
             for g in groups.values()]
     res = impl_run_parallel(jobs, chunks=len(jobs))
     entries = []
@@ -189,7 +194,7 @@ def run(tier):
                                    "writes": e["writes"], "log": e["log"]})
         for cs in e["cases"]:
             own = OWN[cs["cls"]]
-            chk.count((rq["name"], cs["k"], cs["cls"]), nontrivial=True)
+            chk.count((rq["name"], cs["k"], cs.get("span"), cs["cls"]), nontrivial=True)
 
             def hit(tag, what):
                 hits.setdefault(tag, []).append((rq, e, cs, what))
@@ -221,9 +226,12 @@ def run(tier):
             index.append((rq, e, cs))
     for tag, lst in sorted(hits.items()):
         found = True
-        rq, e, cs, what = min(lst, key=lambda t: (t[2]["k"], len(t[0]["data"])))
+        rq, e, cs, what = min(lst, key=lambda t: (t[2]["k"], t[2].get("span") or 0, len(t[0]["data"])))
         chk.violation({"what": what, "request_latin1": rq["data"], "tls": rq["tls"], "protocol": rq["proto"],
-                       "response_kind": rq["kind"], "fail_at_write": cs["k"], "error_class": cs["cls"],
+                       "response_kind": rq["kind"], "fail_at_write": cs["k"],
+                       "failing_writes": "every write from %d on" % cs["k"] if cs.get("span") is None
+                       else "writes %d..%d, later writes succeed" % (cs["k"], cs["k"] + cs["span"] - 1),
+                       "fail_span": cs.get("span"), "error_class": cs["cls"],
                        "error": {"EPIPE": "OSError(EPIPE, 'Broken pipe')", "ECONNRESET": "OSError(ECONNRESET, ...)",
                                  "TIMEOUT": "socket.timeout('timed out')"}[cs["cls"]],
                        "escaping_exception": cs["exc"], "records_after_fault": cs["records"], "log_tail": cs["log"],
@@ -238,6 +246,7 @@ def run(tier):
     mism, err, nsh = coq_eval("C20", "k_fault", "Lib.Str Model.Conn Corr.K20", "chk_fault", lits, shard=400,
                               pre="From Coq Require Import List. Import ListNotations.")
     cov["correspondence"] = {"cases": len(lits), "requests": len(entries), "shards": nsh, "mismatches": len(mism),
+                             "fault_patterns_per_index": ["forever" if x is None else "%d write(s)" % x for x in SPANS[tier]],
                              "errors": [err] if err else [], "every_write_index": True, "classes": CLASSES}
     cov["oracle"] = {"faulted_runs": len(lits), "findings": {t: len(v) for t, v in hits.items()},
                      "descriptor_released_only_by_gc": nogc_only,
@@ -248,7 +257,7 @@ def run(tier):
     if mism or err:
         detail = {"errors": err, "count": len(mism), "mismatching_cases": [
             {"request": index[i][0]["name"], "request_latin1": index[i][0]["data"], "shape": index[i][1]["events"],
-             "k": index[i][2]["k"], "class": index[i][2]["cls"], "implementation": {
+             "k": index[i][2]["k"], "span": index[i][2].get("span"), "class": index[i][2]["cls"], "implementation": {
                  "escaped": index[i][2]["exc"], "records_after_fault": index[i][2]["records"],
                  "descriptors_left": index[i][2]["fd_gc"]}} for i in mism[:6]]}
         chk.correspondence_broken("K20 (Model/Conn.v with the generated except-clause specs vs the real handler)",
@@ -273,6 +282,7 @@ def replay(path):
     with open(path) as f:
         rep = json.load(f)
     job = {"op": "c20_sweep", "tree": tree(rep.get("tier", "quick")), "config": CONFIG, "classes": [rep["error_class"]], "every_index": True,
+           "spans": [rep.get("fail_span")],
            "requests": [{"name": "replay", "data": rep["request_latin1"], "tls": rep["tls"]}]}
     r = impl_run([job])[0]
     if not r["ok"]:
